@@ -28,6 +28,8 @@ pub enum Op {
     IntoRecords,
     /// `shrink_buffer_to_fit()` on a record set: must not change what the set holds
     ShrinkSet(u8),
+    /// `slots[dst] = slots[src].clone()`: the copy holds what the original holds
+    CloneSet(u8, u8),
 }
 
 #[derive(Clone, Debug, PartialEq, Eq)]
@@ -39,6 +41,7 @@ pub enum Ev {
     SeekSkipped,
     Policy,
     Drained(Vec<Out>),
+    Cloned { src: usize, dst: usize },
 }
 
 #[derive(Clone, Debug, PartialEq, Eq)]
@@ -193,6 +196,12 @@ pub fn run_ops<R: SeekRdr<Src = Source>>(spec: &RunSpec) -> Trace {
             Op::ShrinkSet(s) => {
                 R::set_shrink(&mut slots[*s as usize % N_SLOTS]);
                 Ev::Policy
+            }
+            Op::CloneSet(a, b) => {
+                let (src, dst) = (*a as usize % N_SLOTS, *b as usize % N_SLOTS);
+                let copy = slots[src].clone();
+                slots[dst] = copy;
+                Ev::Cloned { src, dst }
             }
             Op::IntoRecords => {
                 let r = rdr.take().unwrap();
@@ -625,11 +634,24 @@ pub fn check_strict_opt(m: &Model, t: &Trace, check_positions: bool, tolerate_li
                 st.terminal_reported = true;
                 c = n;
             }
+            Ev::Cloned { src, dst } => {
+                ensure!(
+                    s.slots_after[*dst] == prev_slots[*src],
+                    format!("{}/clone-differs", fmt),
+                    "step {} ({:?}): the clone of record set {} holds {:?}, the original held {:?}",
+                    si,
+                    s.op,
+                    src,
+                    s.slots_after[*dst],
+                    prev_slots[*src]
+                );
+            }
             Ev::SeekSkipped | Ev::Policy => {}
         }
         // other slots unchanged
         let touched = match &s.ev {
             Ev::Set { slot, .. } => Some(*slot),
+            Ev::Cloned { dst, .. } => Some(*dst),
             _ => None,
         };
         for j in 0..N_SLOTS {
@@ -803,7 +825,7 @@ pub fn check_genuine(fmt: &str, recs: &[NRec], seek_floor: &dyn Fn(u64) -> Optio
                     }
                 }
             }
-            Ev::SeekSkipped | Ev::Policy => {}
+            Ev::SeekSkipped | Ev::Policy | Ev::Cloned { .. } => {}
         }
         // whatever any slot holds at any time must consist of records of the input
         for (j, slot) in s.slots_after.iter().enumerate() {
